@@ -44,14 +44,20 @@ def make_ws(sched, after, accept_cycle):
     real_threading, real_lock = _core.threading, _abnf.Lock
     _core.threading = ThreadingShim()
     _abnf.Lock = lambda: SchedLock(sched)
+
+    def restore():
+        _core.threading, _abnf.Lock = real_threading, real_lock
     try:
         s = SchedSock(sched, after, accept_cycle=accept_cycle)
         ws = websocket.WebSocket()          # default configuration: enable_multithread=True
         ws.connect("ws://sim.test/", socket=s, suppress_origin=True)
         s.hs_mark = len(s.log)
         s.mark = len(s.written)
-    finally:
-        _core.threading, _abnf.Lock = real_threading, real_lock
+    except BaseException:
+        restore()
+        raise
+    # the shim stays installed while the threads run: a lock the library creates late (on first use) is a scheduled lock too
+    ws._verif_restore = restore
     return ws, s
 
 
@@ -63,11 +69,14 @@ def run_senders(prefix, payloads, accept_cycle, line_rng=None):
         def body(i=i, p=p):
             rets[i] = ws.send(p, 2)
         sched.spawn(i, body)
-    sched.run()
+    try:
+        sched.run()
+    finally:
+        ws._verif_restore()
     return sched.trace, {"wire": bytes(s.written[s.mark:]), "rets": rets, "errors": [(t, repr(e)) for t, e in sched.errors]}
 
 
-def run_receivers(prefix, messages, nthreads, chunks, with_sender=False, line_rng=None):
+def run_receivers(prefix, messages, nthreads, chunks, with_sender=False, line_rng=None, via="recv"):
     """messages: list of lists of (op, fin, payload) frames (one message each); delivered in `chunks`-byte reads."""
     sched = Scheduler(prefix, trace_lines=line_rng is not None, rng=line_rng)
     stream = b"".join(server_frame(op, p, fin=fin) for m in messages for (op, fin, p) in m)
@@ -77,7 +86,7 @@ def run_receivers(prefix, messages, nthreads, chunks, with_sender=False, line_rn
     for i in range(nthreads):
         def body(i=i):
             try:
-                got[i] = ws.recv()
+                got[i] = ws.recv() if via == "recv" else next(ws)       # the iterator protocol (for msg in ws) is a receive call too
             except Exception as e:
                 got[i] = "raise:" + exn_class(e)
         sched.spawn(i, body)
@@ -85,7 +94,10 @@ def run_receivers(prefix, messages, nthreads, chunks, with_sender=False, line_rn
         def sbody():
             ws.send(b"from-sender", 2)
         sched.spawn(nthreads, sbody)
-    sched.run()
+    try:
+        sched.run()
+    finally:
+        ws._verif_restore()
     return sched.trace, {"got": got, "wire": bytes(s.written[s.mark:]), "errors": [(t, repr(e)) for t, e in sched.errors]}
 
 
@@ -184,13 +196,14 @@ def run(ctx):
         nthreads = len(messages)
         for chunks in (1, 4, 1000):
             mr = 250 if ctx.tier == "quick" else 2500
-            for prefix, trace, res in explore(lambda p: run_receivers(p, messages, nthreads, chunks), bound, mr):
+            via = "next" if chunks == 4 else "recv"
+            for prefix, trace, res in explore(lambda p: run_receivers(p, messages, nthreads, chunks, via=via), bound, mr):
                 want = []
                 for m in messages:
                     data = b"".join(p for (op, fin, p) in m if op in (0, 1, 2))
                     want.append(data.decode() if m[0][0] == 1 else data)
                 pub = {"kind": "receivers", "messages": [[(op, fin, p.hex()) for op, fin, p in m] for m in messages],
-                       "chunks": chunks, "schedule": list(prefix)}
+                       "chunks": chunks, "schedule": list(prefix), "via": via}
                 T.case(("recv", len(messages), chunks, tuple(pk for _, pk, _ in trace)), nontrivial=preemptions(trace) > 0,
                        bucket=f"receivers{nthreads}", sample={"chunks": chunks, "picks": [pk for _, pk, _ in trace][:30]})
                 got = sorted(map(repr, res["got"].values()))
@@ -206,7 +219,8 @@ def run(ctx):
     for j in range(nline):
         lr = random.Random(ctx.seed * 100003 + j)
         messages = msgsets[j % len(msgsets)]
-        trace, res = run_receivers((), messages, len(messages), 1000, line_rng=lr)
+        via = "next" if j % 2 else "recv"
+        trace, res = run_receivers((), messages, len(messages), 1000, line_rng=lr, via=via)
         want = []
         for m in messages:
             data = b"".join(p for (op, fin, p) in m if op in (0, 1, 2))
@@ -215,7 +229,7 @@ def run(ctx):
         got = sorted(map(repr, res["got"].values()))
         if got != sorted(map(repr, want)) or res["errors"]:
             T.fail("spec", {"kind": "receivers-line-level", "messages": [[(op, fin, p.hex()) for op, fin, p in m] for m in messages],
-                            "rng_seed": ctx.seed * 100003 + j}, str(sorted(map(repr, want))), str(got) + str(res["errors"])[:200],
+                            "rng_seed": ctx.seed * 100003 + j, "via": via}, str(sorted(map(repr, want))), str(got) + str(res["errors"])[:200],
                    {"site": "recv", "cls": "message-not-intact-to-one-receiver", "threads": len(messages)},
                    what="concurrent receivers (line-level preemption) did not each get one whole message")
             break
